@@ -63,7 +63,7 @@ def run(ctx):
             f.write(json.dumps(rp["history"]) + "\n")
         args += ["--replay-cases", cf]
     elif quick:
-        args += ["--nconc", "22", "--npairs", "10"]
+        args += ["--nconc", "20", "--npairs", "6"]
     else:
         args += ["--nconc", "240", "--npairs", "-1"]
     vlib.run(args, timeout=3000, stderr=None)
